@@ -12,7 +12,7 @@ RULE = ("file names of 1..L symbols over {a, space, tab, LF, CR, ', \", \\, #, z
         "thorough) in first/last position of a group; long paths: each symbol repeated (pure and alternating with 'a') in components of <= 255 bytes up to a total of 255 / 1020 / 2040 / 4092 bytes; reports listing files in sibling directories whose names differ only in invalid UTF-8 bytes / U+FFFD; group shapes 1x1,1x2,2x2,3x1,0x0 x lengths {0,1,2^40} x hash "
         "sizes 16/32/64; base dirs over the same alphabet (<=2 symbols); 6 timestamps x small/large statistics; "
         "command vectors of <=2 arguments over the C17 alphabet; text and JSON; written by ReportWriter, read by "
-        "open_report; plus every byte truncation point of six fixed reports (1-3 groups, LF/CRLF, text/JSON); binary cross-check: 30 "
+        "open_report; plus every byte truncation point of six fixed reports (1-3 groups, LF/CRLF, text/JSON); a report file written twice by `group -o FILE` (the second, shorter report into the existing file) read back by `remove --dry-run`; binary cross-check: 30 "
         "hostile names as real files through `group` -> report -> `remove --dry-run`. "
         "Non-trivial = a round trip or truncation point that was actually written and read back; "
         "distinct_nontrivial counts them (all cases are distinct by construction).")
@@ -34,7 +34,54 @@ def cases(tier, seed):
     for i in range(0, len(c02.HOSTILE), 5):
         for fmt in ("default", "json"):
             out.append({"mode": "binary", "names": c02.HOSTILE[i:i + 5], "fmt": fmt})
+    # the report file of an earlier, longer run is written again (`group -o FILE` twice): what the dedupe commands
+    # read back is the second report and nothing else
+    for fmt in ("default", "json"):
+        for keep in (1, 2):
+            out.append({"mode": "binary_rerun", "fmt": fmt, "keep": keep})
     return out
+
+
+def evaluate_binary_rerun(case):
+    viol = []
+    with C.Scratch() as sc:
+        tree = []
+        for i in range(4):
+            for d in ("d", "e", "f"):
+                tree.append({"p": "%s%d/file-%d" % (d, i, i), "k": "file", "c": ["base", 100 + i, i + 1]})
+        C.make_tree(sc.tree, tree)
+        out = os.path.join(sc.root, "dupes.report")
+        args = ["group", "."] + (["-f", "json"] if case["fmt"] == "json" else []) + ["-o", out]
+        rc, _, err, to = C.fclones(args, sc)
+        if rc != 0:
+            raise C.MachineryError("group -o failed: %s" % err[-300:])
+        first = C.read_file(out)
+        # most duplicates go away; the second report is (much) shorter than the first
+        for i in range(case["keep"], 4):
+            for d in ("e", "f"):
+                os.unlink(sc.path("%s%d/file-%d" % (d, i, i)))
+        rc, _, err, to = C.fclones(args, sc)
+        second = C.read_file(out)
+        ref = D.make_report(sc, [], ["."], fmt=case["fmt"])
+        expected = set()
+        for g in D.report_groups(ref).groups:
+            expected.update(g["paths"][1:])
+        r = D.run_dedupe(sc, "remove", [], second, dry_run=True)
+        feat = {"kind": "stale_report_content", "format": case["fmt"], "what": "group_o_into_existing_file"}
+        if len(ref) >= len(first):
+            raise C.MachineryError("a fresh report of the reduced tree is not shorter than the first report")
+        if rc != 0:
+            viol.append(dict(feat, kind="read_error", detail="second `group -o`: %s" % err[-300:]))
+        elif r["rc"] != 0:
+            viol.append(dict(feat, kind="read_error", detail="the report file written by the second `group -o FILE` (FILE existed, %d bytes; "
+                             "now %d bytes) is rejected: %s" % (len(first), len(second), r["err"][-200:])))
+        else:
+            got = set(o["file"] for o in D.parse_script(r["out"]))
+            if got != expected:
+                viol.append(dict(feat, detail="after a second `group -o FILE` into the existing file, `remove --dry-run` names %r beyond / misses %r "
+                                 "of what a fresh report lists" % (sorted(got - expected)[:3], sorted(expected - got)[:3])))
+    return {"violations": viol, "evaluations": 1, "counters": {"nontrivial": 1, "binary_cases": 1, "binary_paths": len(expected)},
+            "outcome": "binary", "sample": {"case": case}}
 
 
 def evaluate_binary(case):
@@ -72,6 +119,8 @@ def evaluate_binary(case):
 
 
 def evaluate(case):
+    if case.get("mode") == "binary_rerun":
+        return evaluate_binary_rerun(case)
     if case.get("mode") == "binary":
         return evaluate_binary(case)
     if "one" in case:
